@@ -61,6 +61,22 @@ def execute(case, prefix, seed):
             r.addBoth(fin)
             return r
         return orig(self, cb2, *a, **kw)
+    snaps = {}
+
+    def newest(si):
+        """(seqnum, root_hash) of the newest version held by >= k (=2) share numbers on disk"""
+        vs = lib_mut.versions(lib_mut.mutable_shares(g, si))
+        ok = [v for v, shs in vs.items() if len(shs) >= 2]
+        return max(ok, key=lambda v: v[0]) if ok else None
+
+    def watch(d, i, si):
+        snaps[("req", i)] = newest(si)
+
+        def cb(res):
+            snaps[("done", i)] = newest(si)
+            return res
+        d.addCallback(cb)
+        return d
     try:
         c = g.clients[0]
         init = pattern(0, 10)
@@ -90,7 +106,7 @@ def execute(case, prefix, seed):
                 elif op == "uploadC":
                     d = n.upload(MutableData(C), sm0); content = C; exp.append(("ok", None))
                 elif op == "append":
-                    d = n.modify(lambda old, sm, first: old + X); content = content + X; exp.append(("ok", None))
+                    d = watch(n.modify(lambda old, sm, first: old + X), i, n.get_storage_index()); content = content + X; exp.append(("ok", None))
                 else:
                     def boom(old, sm, first):
                         raise Boom()
@@ -100,6 +116,9 @@ def execute(case, prefix, seed):
             g.sched.run()
             g.sched.explore = False
             MutableFileNode._do_serialized = orig
+            # under injected faults (incl. refused write rounds = contention) an operation may fail and
+            # may or may not have taken effect: only ordering, termination and "success => published"
+            # are judged then
             faulted = any(k.startswith("fault") for (k, l, o) in g.sched.log)
             for i, (bx, e) in enumerate(zip(boxes, exp)):
                 if not bx:
@@ -133,9 +152,9 @@ def execute(case, prefix, seed):
             for i, op in enumerate(case["ops"]):
                 n = (d1, d2)[i % 2]
                 if op == "add_a":
-                    d = n.set_uri(u"a", caps["a"], None); listing = listing | {"a"}; exp.append(("ok", None))
+                    d = watch(n.set_uri(u"a", caps["a"], None), i, n.get_storage_index()); listing = listing | {"a"}; exp.append(("ok", None))
                 elif op == "add_b":
-                    d = n.set_uri(u"b", caps["b"], None); listing = listing | {"b"}; exp.append(("ok", None))
+                    d = watch(n.set_uri(u"b", caps["b"], None), i, n.get_storage_index()); listing = listing | {"b"}; exp.append(("ok", None))
                 elif op == "add_a_noover":
                     d = n.set_uri(u"a", caps["b"], None, overwrite=False)
                     if "a" in listing:
@@ -155,7 +174,10 @@ def execute(case, prefix, seed):
             g.sched.run()
             g.sched.explore = False
             MutableFileNode._do_serialized = orig
+            dfaulted = any(k.startswith("fault") for (k, l, o) in g.sched.log)
             for i, (bx, e) in enumerate(zip(boxes, exp)):
+                if bx and dfaulted:
+                    continue
                 if not bx:
                     viol.append(("operation-never-completes", "directory operation %d (%s) of %r never fired" % (i, case["ops"][i], case["ops"])))
                     continue
@@ -168,8 +190,15 @@ def execute(case, prefix, seed):
                     viol.append(("read-out-of-order", "list requested as operation %d of %r returned %r, expected %r" % (i, case["ops"], sorted(bx[0][1].keys()), sorted(e[1]))))
             bl = g.wait(d1.list())
             got = set(str(k) for k in bl[0][1].keys()) if bl and bl[0][0] == "ok" else None
-            if got != listing:
+            if got != listing and not dfaulted:
                 viol.append(("directory-edit-lost", "after %r the directory lists %r, sequential application gives %r" % (case["ops"], got and sorted(got), sorted(listing))))
+        # an operation that changes the contents and reports success must have published: at the
+        # moment its Deferred fires, the newest recoverable version on disk is newer than at request time
+        for (what, i), v in sorted(snaps.items()):
+            if what == "done":
+                before = snaps.get(("req", i))
+                if v is None or (before is not None and v[0] <= before[0]):
+                    viol.append(("success-reported-before-published", "operation %d (%s) of %r reported success while the newest recoverable version on disk is still %r (at request time: %r)" % (i, case["ops"][i], case["ops"], v and v[0], before and before[0])))
         # ordering / mutual exclusion of the serialised bodies
         running = None
         last_started = -1
@@ -243,6 +272,10 @@ def run(tier, seed):
     res = grid.split_tasks(common.pmap, chunk, fcases + dcases, (seed,), d, 0)
     sel = [dict(c, fault_kinds=["error", "disconnect"]) for c in fcases[:: (3 if tier == "quick" else 5)]]
     res.merge(grid.split_tasks(common.pmap, chunk, sel, (seed,), 0, 1))
+    # contention: a server refuses a test-and-set write as if another writer had been there first, which
+    # sends modify()-based operations into their retry loop while other operations are queued behind
+    sel2 = [dict(c, fault_kinds=["refuse-round"]) for c in fcases + dcases if any(op in ("append", "add_a", "add_b", "del_c") for op in c["ops"])]
+    res.merge(grid.split_tasks(common.pmap, chunk, sel2 if tier != "quick" else sel2[::2], (seed,), 0, 1 if tier == "quick" else 2))
     cov = {
         "states": res.counts.get("executions", 0),
         "transitions": res.counts.get("transitions", 0),
